@@ -9,6 +9,18 @@ CHECKS = {
          "Every one of the 65536 flag words, 128x128 flag-set pairs and named opcode x rcode x flag-subset combinations is executed against the real code and compared with a bit model transcribed from RFC 1035 4.1.1; the space is finite and fully enumerated, so within the header the property is decided, not sampled.",
          "Trusts the transcription of the RFC bit positions in mc/src/refmodel/packet.rs and the flag table in mc/src/bind.rs; counts are exercised at {0,1,0xffff} on the peek side and {0,1,2} on the build side.",
          "DESIGN.md section 3, C08"),
+ "C17": ("exhaustive enumeration of all strings up to length 6 (7 thorough) over an 8-symbol alphabet, all label/name boundary lengths and all name pairs up to 4 labels through the real Name/Label API, compared with a reference grammar",
+         "Every string of the bounded alphabet, every label length 0..=70, every encoded length 245..=262 and every ordered pair of names with <=4 labels over {a,b} is run through Name::new, Label::new, to_string, is_subdomain_of, without and is_link_local and compared with a reference grammar / suffix relation written from the statement; the declared spaces are enumerated completely.",
+         "Small-scope argument: the validator looks only at first/inner/last character class, label length and total length, all of which vary inside the bound. Letters are taken to be ASCII letters.",
+         "DESIGN.md section 3, C17"),
+ "C18": ("exhaustive enumeration of all 65536 codes through the four conversions and of the full record-type x question-type x class matrix on built and parsed records",
+         "All 65536 codes are converted to TYPE/CLASS/QTYPE/QCLASS and back and compared with an independent IANA table; every supported type code plus NULL and unknown codes, as typed and as empty RDATA, built through constructors and parsed from reference encodings, is matched against every question type (each mnemonic, ANY, MAILB) and class; complete enumeration, so the tables are decided.",
+         "Trusts the IANA table transcribed in mc/src/props/c18.rs. AXFR/IXFR/MAILA matching is outside the property's quantifier and not judged.",
+         "DESIGN.md section 3, C18"),
+ "C19": ("exhaustive enumeration of boundary-length Unicode strings, small attribute maps, raw string lists and all strings up to length 6 over {a,;,=,U+013B,U+023D}, executed on the real TXT/CharacterString API in memory and across build+parse, compared with reference splitters",
+         "Strings whose multi-byte characters straddle every chunk boundary (n around 254/255, 508/510), every attribute map of <=3 entries over 3 keys x 7 value shapes plus 253..300-byte entries, every raw string list up to 2 (3) strings over 8 atoms (duplicates, empty keys), every string up to length 6 (7) over the separator alphabet, and every byte length 0..=300 through all seven constructors are executed against the real code, both in memory and after crossing the wire, and compared with reference split/join/attribute models.",
+         "Strings with an empty key are taken to be ignored per RFC 6763 6.4; only the wholly empty string is required to yield no attribute. Keys are non-empty.",
+         "DESIGN.md section 3, C19"),
 }
 NOT_YET = {}
 
